@@ -310,6 +310,10 @@ def binop(ev, op, a, b, node, fr):
         if isinstance(a, NoneV) or isinstance(b, NoneV):
             raise Raised("TypeError", node, "arithmetic with None")
         ev.unsupported(f"binary operation between {a!r} and {b!r}", node, fr)
+    if isinstance(op, ast.Sub) and b.kind == "time" and a.kind != "time":
+        raise Raised("TypeError", node, "number/Quantity minus Time is not defined")
+    if isinstance(op, (ast.Mult, ast.Div)) and (a.kind == "time" or b.kind == "time"):
+        raise Raised("TypeError", node, "a Time cannot be multiplied or divided")
     bexpr, shape, axes = broadcast(ev, a, b)
     x, y = a.expr, bexpr
     kind = _kind(op, a, b)
@@ -489,6 +493,8 @@ def index_term(ev, idx):
         return sp.Symbol("str_" + idx.s)
     if isinstance(idx, BoolV):
         return sp.Integer(int(idx.b))
+    if isinstance(idx, NdArr):
+        return sp.Symbol("mask_" + "".join("1" if ev.truth(x) is True else "0" for x in idx.items))
     raise Unsupported(f"index {idx!r}")
 
 
@@ -637,6 +643,10 @@ def val_getattr(ev, obj, name, fr, node):
     from .symeval import Raised
     if isinstance(obj, Num):
         return num_getattr(ev, obj, name, fr, node)
+    if isinstance(obj, HandleV):
+        return handle_getattr(ev, obj, name, fr, node)
+    if isinstance(obj, HeaderV) and name in obj.hattrs:
+        return obj.hattrs[name]
     if isinstance(obj, NdArr):
         if name == "shape":
             return TupleV([Num(s) for s in obj.shape])
@@ -748,6 +758,8 @@ def call_method(ev, recv, name, args, kwargs, fr, node):
         ev.unsupported(f"method chain .{recv.name}.{name}", node, fr)
     if isinstance(recv, Num):
         return num_method(ev, recv, name, args, kwargs, fr, node)
+    if isinstance(recv, HandleV):
+        return handle_method(ev, recv, name, args, kwargs, fr, node)
     if isinstance(recv, NdArr):
         return nd_method(ev, recv, name, args, kwargs, fr, node)
     if isinstance(recv, StackV):
@@ -1195,6 +1207,13 @@ def h_moveaxis(ev, args, kwargs, fr, node):
     return Num(F["Transpose"](x.expr, *order), kind=x.kind, shape=shape, backend=x.backend, tag=x.tag, dtype=x.dtype)
 
 
+def h_flip(ev, args, kwargs, fr, node):
+    x = args[0]
+    axis = kwargs.get("axis", args[1] if len(args) > 1 else NONE)
+    ax = axis.expr if isinstance(axis, Num) else NONE_S
+    return Num(F["Flip"](x.expr, ax), kind=x.kind, shape=x.shape, backend=x.backend, tag=x.tag, dtype=x.dtype)
+
+
 def h_swapaxes(ev, args, kwargs, fr, node):
     return num_method(ev, args[0], "swapaxes", args[1:], kwargs, fr, node)
 
@@ -1307,7 +1326,7 @@ def h_index(ev, args, kwargs, fr, node):
         if x.expr.is_integer is False and x.expr.is_number:
             from .symeval import Raised
             raise Raised("TypeError", node)
-        return Num(x.expr)
+        return Num(x.expr, tag="pyint")
     if isinstance(x, BoolV):
         return Num(int(x.b))
     ev.unsupported(f"operator.index of {x!r}", node, fr)
@@ -1379,6 +1398,14 @@ def h_getattr(ev, args, kwargs, fr, node):
         raise
 
 
+def h_setattr(ev, args, kwargs, fr, node):
+    obj, name, val = args
+    if not isinstance(name, StrV):
+        ev.unsupported("setattr with a non-literal name", node, fr)
+    ev.setattr(obj, name.s, val, fr, node)
+    return NONE
+
+
 def h_hasattr(ev, args, kwargs, fr, node):
     obj, name = args
     if isinstance(obj, ObjV) and isinstance(name, StrV):
@@ -1400,6 +1427,12 @@ def h_type(ev, args, kwargs, fr, node):
         return ClassV(x.cls)
     if isinstance(x, Num):
         return ExtV("type:" + x.kind)
+    if isinstance(x, (NdArr, StackV)):
+        return ExtV("numpy.ndarray")
+    if isinstance(x, (TupleV, ListV, DictV)):
+        return ExtV("builtins." + {TupleV: "tuple", ListV: "list", DictV: "dict"}[type(x)])
+    if isinstance(x, NoneV):
+        return ExtV("builtins.NoneType")
     ev.unsupported(f"type({x!r})", node, fr)
 
 
@@ -1888,6 +1921,58 @@ def h_super(ev, args, kwargs, fr, node):
     return SuperV(f.fi.cls, self_val)
 
 
+class HandleV(Val):
+    """Model of a baseband StreamReader: attribute table plus a log of seek/read calls."""
+    def __init__(self, attrs, sample_shape, dtype, log):
+        self.attrs, self.sample_shape, self.dtype, self.log = attrs, sample_shape, dtype, log
+        self.pos = None
+        self.closed = False
+
+
+class HeaderV(DictV):
+    def __init__(self, d, attrs):
+        super().__init__(d)
+        self.hattrs = attrs
+
+
+def handle_getattr(ev, h, name, fr, node):
+    if name in h.attrs:
+        return h.attrs[name]
+    if name in ("seek", "read", "close", "tell", "__enter__", "__exit__"):
+        return BoundBuiltin(h, name)
+    from .symeval import Raised
+    raise Raised("AttributeError", node, f"stream reader has no attribute {name}")
+
+
+def handle_method(ev, h, name, args, kwargs, fr, node):
+    if name == "seek":
+        h.pos = args[0]
+        h.log.append(("seek", args[0], id(h)))
+        return args[0]
+    if name == "read":
+        cnt = args[0]
+        if h.pos is None:
+            h.log.append(("read-without-seek", cnt, id(h)))
+            pos = Num(sp.Symbol("UNSOUGHT"))
+        else:
+            pos = h.pos
+        h.log.append(("read", pos, cnt, id(h)))
+        h.pos = None
+        shape = (cnt.expr,) + tuple(h.sample_shape)
+        return Num(F["Opq"](sp.Symbol("FileData"), pos.expr, cnt.expr), kind="array", shape=shape, tag="data",
+                   dtype=h.dtype, backend="numpy")
+    if name == "tell":
+        return h.pos if h.pos is not None else Num(0)
+    return NONE
+
+
+def h_baseband_open(ev, args, kwargs, fr, node):
+    fm = getattr(ev, "file_model", None)
+    if fm is None:
+        ev.unsupported("baseband.open without a file model", node, fr)
+    return fm(ev, args, kwargs)
+
+
 class SuperV(Val):
     def __init__(self, cls, self_val):
         self.cls, self.self_val = cls, self_val
@@ -1904,7 +1989,7 @@ def super_getattr(ev, s: SuperV, name, fr, node):
 
 EXT = {
     "builtins.len": h_len, "builtins.int": h_int, "operator.index": h_index, "builtins.isinstance": h_isinstance,
-    "builtins.getattr": h_getattr, "builtins.hasattr": h_hasattr, "builtins.type": h_type,
+    "builtins.getattr": h_getattr, "builtins.hasattr": h_hasattr, "builtins.setattr": h_setattr, "builtins.type": h_type,
     "builtins.issubclass": h_issubclass, "inspect.signature": h_signature, "builtins.tuple": h_tuple,
     "builtins.list": h_list, "builtins.dict": h_dict, "builtins.range": h_range, "builtins.zip": h_zip,
     "builtins.enumerate": h_enumerate, "builtins.all": h_all,
@@ -1934,14 +2019,14 @@ EXT = {
     "numpy.array": h_array, "numpy.asarray": h_array, "numpy.asanyarray": h_array,
     "dask.array.asanyarray": lambda ev, a, k, fr, n: a[0].like(a[0].expr, backend="dask") if isinstance(a[0], Num) else a[0],
     "dask.array.asarray": lambda ev, a, k, fr, n: a[0].like(a[0].expr, backend="dask") if isinstance(a[0], Num) else a[0],
-    "numpy.stack": h_stack, "numpy.concatenate": h_concatenate, "numpy.moveaxis": h_moveaxis, "numpy.swapaxes": h_swapaxes, "numpy.take": h_take, "numpy.nditer": h_nditer, "numpy.broadcast_to": h_broadcast_to,
+    "numpy.stack": h_stack, "numpy.concatenate": h_concatenate, "numpy.moveaxis": h_moveaxis, "numpy.swapaxes": h_swapaxes, "numpy.flip": h_flip, "numpy.take": h_take, "numpy.nditer": h_nditer, "numpy.broadcast_to": h_broadcast_to,
     "numpy.prod": h_prod, "math.prod": h_prod, "numpy.where": h_where, "numpy.bool_": h_bool_,
     "numpy.allclose": h_allclose, "numpy.isclose": h_allclose, "numpy.iscomplexobj": h_iscomplexobj,
     "numpy.fft.fftshift": _shift_like("FFTSHIFT"), "numpy.fft.ifftshift": _shift_like("IFFTSHIFT"),
     "astropy.time.Time": h_time, "astropy.time.Time.isclose": h_isclose_time,
     "astropy.units.isclose": h_isclose_q, "astropy.units.allclose": h_isclose_q,
     "dask.delayed": h_delayed, "dask.array.from_delayed": h_from_delayed, "dask.array.map_blocks": h_map_blocks,
-    "contextlib.nullcontext": h_nullcontext,
+    "contextlib.nullcontext": h_nullcontext, "baseband.open": h_baseband_open,
     "functools.wraps": lambda ev, a, k, fr, n: OpaqueV("decorator"),
     "functools.singledispatch": lambda ev, a, k, fr, n: a[0],
 }
